@@ -199,6 +199,31 @@ class Native:
             pending = rest
         return out
 
+    def race(self, hex_input, time_s=300):
+        """C05: run the two API entry points on the input from 8 goroutines under the race detector."""
+        env = dict(ENV, VERIF_RACE_INPUT=hex_input, CGO_ENABLED="1")
+        try:
+            r = subprocess.run(["go", "test", "-race", "-tags", "verif", "-overlay", self.ov, "-vet=off", "-count=1", "-run", "^TestVerifRace$", "."],
+                               cwd=REPO, env=env, capture_output=True, text=True, timeout=time_s)
+        except subprocess.TimeoutExpired:
+            return False, "race run timed out"
+        out = r.stdout + r.stderr
+        return ("DATA RACE" in out), out[-1500:]
+
+    def timing(self, pre_hex, unit_hex, api, time_s=600):
+        """C09: native time ratio t(4N)/t(N) of the family pre + unit^N."""
+        outp = os.path.join(self.tmp, "timing.json")
+        if os.path.exists(outp):
+            os.remove(outp)
+        env = dict(ENV, VERIF_TIMING=json.dumps({"Pre": pre_hex, "Unit": unit_hex, "API": api, "Out": outp}))
+        try:
+            subprocess.run([self.bin, "-test.run", "^TestVerifTiming$", "-test.count=1", "-test.timeout=0"], cwd=REPO, env=env, capture_output=True, text=True, timeout=time_s)
+        except subprocess.TimeoutExpired:
+            return {"ratio": 99.0, "note": "native run did not finish in %ds" % time_s}
+        if not os.path.exists(outp):
+            return {"ratio": 0.0, "note": "no timing result"}
+        return json.load(open(outp))
+
     def close(self):
         shutil.rmtree(self.tmp, ignore_errors=True)
 
